@@ -41,6 +41,8 @@ type LV struct {
 	idx  *Term
 	path []pathStep
 	typ  types.Type // pointee type
+	sl   *Term      // for elements of a slice: the slice header and the index relative to it
+	rel  *Term
 }
 
 type State struct {
@@ -65,6 +67,7 @@ type Obligation struct {
 	Cond   *Term // must be valid
 	Pos    string
 	Text   string
+	Clause *Clause
 	Result string // discharged / failed / unknown
 	Solver string
 	Secs   float64
@@ -142,6 +145,7 @@ type FnCtx struct {
 	termAxioms []*Term
 	freshBase *Term
 	ghostByType map[string][]ghostField
+	inlinedExt  map[string]bool
 }
 
 type ghostField struct {
@@ -536,6 +540,12 @@ func (c *FnCtx) rootLoad(st *State, lv *LV) *Term {
 	arr := c.heapGet(st, lv.key, c.heapSort[lv.key])
 	root := f.Select(arr, lv.ref)
 	if lv.elem {
+		if lv.sl != nil {
+			// read through the slice's content value: at(sub(region, off, off+len), i) — the
+			// quantifier-friendly form (patterns without arithmetic)
+			off := f.SlOff(lv.sl)
+			return f.SAt(f.SSub(root, off, f.Add(off, f.SlLen(lv.sl))), lv.rel)
+		}
 		root = f.SAt(root, lv.idx)
 	}
 	return root
